@@ -58,3 +58,53 @@ package literal
 //@   loop 0 invariant 0 <= width && width <= 4
 //@   effect append#1 requires width == 1
 //@   assigns allelems(byte)
+
+// ---- C06: a number literal with a multiplier denotes the exact product ----
+// The literal package multiplies in its own copy of apd.BaseContext. Integer
+// literals are arbitrary precision, so that copy must keep Precision 0 ("no
+// rounding"); with a finite precision 12345678901234567890123456789012345678K
+// would silently lose its low digits (defect F4, repaired).
+//@ invariant literalContextExact: baseContext.Precision == 0
+//@ func init#1
+//@   ensures [exactctx] baseContext.Precision == 0
+//@   assigns heap
+
+// ghost: the value denoted by the digits currently in p.buf, as (floor, fraction)
+//@ ghost var litIp int
+//@ ghost var litFp real
+//@ func unmarshalEffect
+//@   assumed A-ext (*apd.Decimal).UnmarshalText: sets the receiver to the value of the text (called lit here); finite for a scanned number
+//@   ensures apd.wfDec(d) && d.Form == apd.Finite && d.ip == litIp && d.fp == litFp
+//@   assigns d.*
+//@ func (*apd.Context).RoundToIntegralExact
+//@   assumed A-ext context.go RoundToIntegralExact: the identity on integral values; Inexact exactly when a fraction was dropped
+//@   requires apd.wfDec(x)
+//@   ensures apd.wfDec(d)
+//@   ensures old(x.Form) == apd.Finite && old(x.fp) == 0.0 ==> d.Form == apd.Finite && d.ip == old(x.ip) && d.fp == 0.0 && !apd.condInexact(result0)
+//@   ensures old(x.Form) == apd.Finite && old(x.fp) != 0.0 ==> apd.condInexact(result0)
+//@   assigns d.*
+//@ func (*NumInfo).errorf
+//@   assumed A-int: formats an error
+//@   ensures result != nil
+
+//@ func mulInRange
+//@   assumed A-ext context.go Mul as in apd.spec, plus: no trap (the exponent of a literal times a multiplier stays far inside apd's exponent range, so Overflow cannot be raised; the code ignores the error)
+//@   requires apd.wfDec(x) && apd.wfDec(y)
+//@   ensures apd.wfDec(d) && result1 == nil
+//@   ensures old(x.Form) == apd.Finite && old(y.Form) == apd.Finite ==> d.Form == apd.Finite
+//@   ensures !apd.condInexact(result0) && old(x.Form) == apd.Finite && old(y.Form) == apd.Finite ==> apd.isIntProd(d.ip, d.fp, old(x.ip), old(x.fp), old(y.ip), old(y.fp))
+//@   ensures c.Precision == 0 ==> !apd.condInexact(result0)
+//@   assigns d.*
+
+// (P) C06: for a decimal integer literal with a multiplier the result is exactly
+// lit * multiplier, whatever the number of digits
+//@ func (*NumInfo).decimal
+//@   may_panic
+//@   nocheck bounds
+//@   callsite (*v3.Decimal).UnmarshalText#0 contract unmarshalEffect
+//@   callsite (*v3.Context).Mul#0 contract mulInRange
+//@   requires p != nil && v != nil && litFp >= 0.0 && litFp < 1.0
+//@   requires p.mul != 0 ==> inDom(mulToRat, p.mul) && mulToRat[p.mul] != nil && mulToRat[p.mul] != v && apd.wfDec(mulToRat[p.mul]) && mulToRat[p.mul].Form == apd.Finite && mulToRat[p.mul].fp == 0.0
+//@   ensures [exactmul] old(p.base) == 10 && old(p.mul) != 0 && litFp == 0.0 ==> result == nil && v.fp == 0.0 && v.ip == litIp * old(mulToRat[p.mul].ip)
+//@   ensures [nomul] old(p.base) == 10 && old(p.mul) == 0 ==> result == nil && v.ip == litIp && v.fp == litFp
+//@   assigns heap
